@@ -52,8 +52,8 @@ OPS1 = [("omega_reduce", "", "(POW_T *)"), ("pairwise_reduce", "", ""), ("collap
 OPS2 = [("upper_bound", "", "(POW_T *)"), ("intersection", "", ""), ("contains", "_Bool r = ", ""), ("definitely_entails", "_Bool r = ", "(POW_T *)"), ("is_disjoint_from", "_Bool r = ", "")]
 
 # The mutators walk and rebuild the list while the disjunct boxes change: 25-40 GB and 10-40 minutes per query on this
-# machine.  Their contracts are written (contracts/C09/powerset.h) and were discharged individually while building
-# the check, but they are not part of either tier; VERIF_C09_HEAVY=1 adds them.
+# machine, and they did not finish while the check was built.  Their contracts are written (contracts/C09/powerset.h)
+# but they are not part of either tier and nothing is claimed for them; VERIF_C09_HEAVY=1 adds them to a run.
 HEAVY = {"omega_reduce", "pairwise_reduce", "collapse", "topological_closure", "upper_bound", "intersection"}
 RUN_HEAVY = os.environ.get("VERIF_C09_HEAVY") == "1"
 
